@@ -46,6 +46,12 @@ ASSUMPTIONS = [
     "ReLU/LeakyReLU -> QActivation drops max_value/negative_slope/threshold/"
     "alpha as documented ('quantized relu's are always upper bounded'); only "
     "name/trainable/dtype are compared for those layers",
+    "quick tier: the deterministic enumeration may use at most 60% of the "
+    "per-worker budget (cases ordered class-entry / no-entry first), the random "
+    "part runs in chunks of 30 Hypothesis examples until the budget ends; "
+    "whatever is cut is counted under inconclusive_time, never as a failure",
+    "an exception of model_quantize is attributed to the first selected layer "
+    "that reproduces it alone in a one-layer model (src_cls of the signature)",
     "hyper-parameters are compared on the keys the quantized class exposes in "
     "get_config(); initializer/constraint/regularizer keys that the Q class "
     "derives from the quantizers are compared against the directly "
